@@ -1,0 +1,18 @@
+//go:build verif
+
+package kernel
+
+// Verification hooks for C09: the unexported finalization verifiers.
+
+import (
+	"github.com/MixinNetwork/mixin/common"
+	"github.com/MixinNetwork/mixin/crypto"
+)
+
+func (chain *Chain) VerifVerifyFinalization(s *common.Snapshot) ([]crypto.Hash, bool) {
+	return chain.verifyFinalization(s)
+}
+
+func (node *Node) VerifCacheVerifyCosi(snap crypto.Hash, sig *crypto.CosiSignature, cids []crypto.Hash, publics []*crypto.Key, threshold int) ([]crypto.Hash, bool) {
+	return node.cacheVerifyCosi(snap, sig, cids, publics, threshold)
+}
